@@ -137,6 +137,7 @@ def processLine (c : Case) (line : String) : Case :=
     else if name == "default_zero" then c.flag "inverse" "a default-constructed generator returned a non-zero value"
     else if name == "in_range" then c.flag "range" "a sample outside [min, max] in a random sequence"
     else if name == "assigned_cdf" then c.flag "cdf" "GetCDF of a generator that was assigned (over a live, a moved-from or itself) differs from the table of its parameters, or throws"
+    else if name == "history_cdf" then c.flag "cdf" "GetCDF of a generator depends on which generators were constructed before it (same parameters, other class or other offsets in between): more than 1e-9 away from the first generator's table"
     else if name == "assigned_in_range" then c.flag "range" "a sample outside [min, max] from a generator that was assigned over a live one with another bin count"
     else c.flag "pure" s!"outputs differ: {name}"
   | ["ZTHROW", ok] =>
